@@ -532,6 +532,29 @@ def runHandled {α : Type} : Store α → List (String × Nat × α) → Option 
     | none => none
     | some r => runHandled r.1 rest
 
+/-! ### where constants get their dtype (round 4, class 25) -/
+
+/-- tensor-creating calls of the anchored files that take the process-wide default dtype (or infer it from python data),
+reviewed one by one: `(file, function, call)` with the reason in the comment.  Any other such call must pass `dtype=`,
+forward the caller's `**kwargs`, or build an integer tensor from integer literals. -/
+def reviewedCreations : List (String × String × String) := [
+  -- documented constructor from nested lists / ints: the default tensor type, as `torch.Tensor(…)`
+  ("lietensor/lietensor.py", "LieTensor.__new__", "Tensor(*data)"),
+  -- `pp.Parameter()` without data: an empty default parameter, as `nn.Parameter()`
+  ("lietensor/lietensor.py", "Parameter.__new__", "torch.tensor([])"),
+  -- conversion of a NON-tensor argument (python lists / numpy): dtype inferred from the data, as documented
+  ("lietensor/convert.py", "mat2SO3", "torch.tensor(mat)"),
+  ("lietensor/convert.py", "mat2SE3", "torch.tensor(mat)"),
+  ("lietensor/convert.py", "mat2Sim3", "torch.tensor(mat)"),
+  ("lietensor/convert.py", "mat2RxSO3", "torch.tensor(mat)"),
+  ("lietensor/convert.py", "from_matrix", "torch.tensor(mat)"),
+  ("lietensor/convert.py", "euler2SO3", "torch.tensor(euler)"),
+  -- integer index range of a python int length: int64 whatever the default float dtype
+  ("metric/ape_rpe.py", "matching_time_indices", "torch.arange(len(stamps_1), device=stamps_1.device)")]
+
+def creationOk (c : String × String × String × String) : Bool :=
+  c.2.2.2 == "dtype" || c.2.2.2 == "kwargs" || c.2.2.2 == "intlit" || reviewedCreations.contains (c.1, c.2.1, c.2.2.1)
+
 /-! ## `retain_ltype` as a state machine
 
 Slots `0,1,2` are the three torch attributes (`forward_ad.make_dual`,
